@@ -30,9 +30,23 @@ import (
 
 const (
 	verifDir = "/verif"
-	repoDir  = "/repo"
 	goBin    = "go1.26.8"
 )
+
+// repoDir: the registered checks always build from /repo's working tree. Experiments against a deliberately broken copy
+// (tools/seedrun.sh) point VERIF_EXPERIMENT_REPO at a scratch worktree instead, so that /repo is never modified and several
+// experiments can run side by side; such runs must also redirect their evidence (VERIF_EVIDENCE_DIR) - enforced below.
+var repoDir = "/repo"
+
+func init() {
+	if d := os.Getenv("VERIF_EXPERIMENT_REPO"); d != "" {
+		if os.Getenv("VERIF_EVIDENCE_DIR") == "" {
+			fmt.Fprintln(os.Stderr, "check: VERIF_EXPERIMENT_REPO needs VERIF_EVIDENCE_DIR (evidence of experiments never goes to /verif/evidence)")
+			os.Exit(2)
+		}
+		repoDir = d
+	}
+}
 
 type budget struct{ quick, thorough int }
 
@@ -108,11 +122,11 @@ func panicFrame(out string) (string, string) {
 	}
 	for _, l := range strings.Split(rest, "\n") {
 		l = strings.TrimSpace(l)
-		if strings.HasPrefix(l, "/repo/pkg/") {
+		if strings.HasPrefix(l, repoDir+"/pkg/") {
 			if j := strings.Index(l, " "); j >= 0 {
 				l = l[:j]
 			}
-			return strings.TrimPrefix(l, "/repo/"), msg
+			return strings.TrimPrefix(l, repoDir+"/"), msg
 		}
 	}
 	return "", msg
@@ -181,8 +195,17 @@ func build(work string) string {
 		}
 	}
 	bin := filepath.Join(work, "sim.test")
-	out, err := run(filepath.Join(verifDir, "sim"), goEnv(), goBin, "test", "-c", "-tags", "verif", "-overlay", filepath.Join(ov, "overlay.json"),
-		"-vet=off", "-o", bin, ".")
+	args := []string{"test", "-c", "-tags", "verif", "-overlay", filepath.Join(ov, "overlay.json"), "-vet=off", "-o", bin}
+	if repoDir != "/repo" {
+		// experiment: the harness module's replace directive points at the scratch tree through a private go.mod
+		gm, _ := os.ReadFile(filepath.Join(verifDir, "sim/go.mod"))
+		gs, _ := os.ReadFile(filepath.Join(verifDir, "sim/go.sum"))
+		mf := filepath.Join(work, "go.mod")
+		_ = os.WriteFile(mf, bytes.ReplaceAll(gm, []byte("=> /repo"), []byte("=> "+repoDir)), 0644)
+		_ = os.WriteFile(filepath.Join(work, "go.sum"), gs, 0644)
+		args = append(args, "-modfile="+mf)
+	}
+	out, err := run(filepath.Join(verifDir, "sim"), goEnv(), goBin, append(args, ".")...)
 	if err != nil {
 		fatal2("building the simulator against /repo failed (exit 2, not a violation):\n%s", out)
 	}
